@@ -434,6 +434,18 @@ m("gv-early-accept", "gossip.verdict", "eth2/gossipval/voluntary_exit.go", "\t//
 m("gv-inverted-reject", "gossip.verdict", "eth2/gossipval/voluntary_exit.go", "\tif err := phase0.ValidateVoluntaryExit(exitVal.Spec(), epc, state, volExit); err != nil {\n\t\treturn GossipValidatorResult{REJECT, err}\n\t}\n", "\tif err := phase0.ValidateVoluntaryExit(exitVal.Spec(), epc, state, volExit); err == nil {\n\t\t_ = err\n\t} else {\n\t\treturn GossipValidatorResult{IGNORE, err}\n\t}\n", "ValidateVoluntaryExit.IGNORE")
 m("gv-seen-nested-reject", "gossip.verdict", "eth2/gossipval/voluntary_exit.go", "\tif exitVal.SeenExit(volExit.Message.ValidatorIndex) {\n\t\treturn GossipValidatorResult{IGNORE,", "\tif exitVal.SeenExit(volExit.Message.ValidatorIndex) {\n\t\treturn GossipValidatorResult{REJECT,", "ValidateVoluntaryExit.REJECT")
 
+# ---- round 7 rules
+m("dr-value-recv", "decode.recv", B+"altair/lightclient.go", "func (sb *SyncCommitteeProofBranch) Deserialize(dr *codec.DecodingReader) error {", "func (sb SyncCommitteeProofBranch) Deserialize(dr *codec.DecodingReader) error {", "altair.SyncCommitteeProofBranch.Deserialize")
+m("dr-value-recv2", "decode.recv", B+"common/general.go", "func (c *Checkpoint) Deserialize(dr *codec.DecodingReader) error {", "func (c Checkpoint) Deserialize(dr *codec.DecodingReader) error {", "common.Checkpoint.Deserialize")
+m("sw-bitlist", "ssz.writer", B+"altair/sync_bits.go", "func (li SyncCommitteeBits) Serialize(spec *common.Spec, w *codec.EncodingWriter) error {\n\treturn w.BitVector(li[:])", "func (li SyncCommitteeBits) Serialize(spec *common.Spec, w *codec.EncodingWriter) error {\n\treturn w.BitList(li[:])", "altair.SyncCommitteeBits")
+m("tf-depth", "tree.fill", B+"phase0/randao.go", "\tc, err := tree.SubtreeFillToLength(&filler, tree.CoverDepth(length), length)\n\tif err != nil {\n\t\treturn nil, err\n\t}\n", "\tc := tree.SubtreeFillToDepth(&filler, tree.CoverDepth(length))\n", "phase0.SeedRandao:SubtreeFillToDepth")
+m("hc-const", "htr.computed", B+"altair/sync_bits.go", "\t\treturn SyncCommitteeBitsType(spec).New().HashTreeRoot(hFn)\n", "\t\treturn common.Root{}\n", "altair.SyncCommitteeBits.HashTreeRoot")
+m("hc-const2", "htr.computed", B+"common/general.go", "func (c *Checkpoint) HashTreeRoot(hFn tree.HashFn) Root {\n\treturn hFn.HashTreeRoot(c.Epoch, c.Root)", "func (c *Checkpoint) HashTreeRoot(hFn tree.HashFn) Root {\n\treturn Root{}", "common.Checkpoint.HashTreeRoot")
+m("ns-signed-diff", "numeric.signed", B+"common/time.go", "\tif t < genesisTime {\n\t\treturn 0\n\t}\n\treturn Slot((t - genesisTime) / spec.SECONDS_PER_SLOT)", "\td := int64(t) - int64(genesisTime)\n\tif d < 0 {\n\t\treturn 0\n\t}\n\treturn Slot(Timestamp(d) / spec.SECONDS_PER_SLOT)", "common.Spec.TimeToSlot")
+m("bv-primitive", "bls.verify", B+"phase0/proposer_slashing.go", "\tif !blsu.Verify(blsPub, sigRoot2[:], sig2) {", "\tif !blsu.FastAggregateVerify([]*blsu.Pubkey{blsPub}, sigRoot2[:], sig2) {", "phase0.ValidateProposerSlashing.primitive")
+m("cd-skip-cache", "cache.deposit", B+"phase0/deposit.go", "\t\tif pc, err := epc.ValidatorPubkeyCache.AddValidator(valIndex, pubkey); err != nil {", "\t\tif _, known := epc.ValidatorPubkeyCache.Pubkey(valIndex); known {\n\t\t\treturn nil\n\t\t}\n\t\tif pc, err := epc.ValidatorPubkeyCache.AddValidator(valIndex, pubkey); err != nil {", "ProcessDeposit.cache-always")
+m("gs-memo", "global.state", B+"common/shuffle.go", "func PermuteIndex(rounds uint8, index ValidatorIndex, listSize uint64, seed Root) ValidatorIndex {\n", "var lastPermuteSeed Root\n\nfunc PermuteIndex(rounds uint8, index ValidatorIndex, listSize uint64, seed Root) ValidatorIndex {\n\tlastPermuteSeed = seed\n", "common.var lastPermuteSeed")
+
 # lazy.init / lock.atomic positive cases are today's known findings (no mutant needed: they are violations on the tree)
 
 M = [x for x in M if not x["expect"].startswith("XX")]
